@@ -32,6 +32,30 @@ fn heap_ok<I>(root: &Link<I>) -> bool {
     true
 }
 
+/// the tie-tolerant invariant `HeapR` (left child >= parent, right child > parent): by the theorem
+/// `shape_canonical_ties` this says the tree is the Cartesian tree of its in-order priorities
+fn heap_r_ok<I>(root: &Link<I>) -> bool {
+    let mut st: Vec<&TreapNode<I>> = Vec::new();
+    if let Some(r) = root.as_deref() {
+        st.push(r);
+    }
+    while let Some(n) = st.pop() {
+        if let Some(c) = n.left.as_deref() {
+            if c.priority < n.priority {
+                return false;
+            }
+            st.push(c);
+        }
+        if let Some(c) = n.right.as_deref() {
+            if c.priority <= n.priority {
+                return false;
+            }
+            st.push(c);
+        }
+    }
+    true
+}
+
 /// (height, number of nodes), explicit stack
 fn height_count<I>(root: &Link<I>) -> (usize, usize) {
     let mut st: Vec<(&TreapNode<I>, usize)> = Vec::new();
@@ -75,11 +99,12 @@ fn shape<I>(root: &Link<I>, out: &mut String) {
     }
 }
 
-fn empty<I>() -> Treap<I> {
-    Treap { root: None }
+/// placeholder left behind when a treap is moved out of the vector (a user would write the same)
+fn empty<I: HItem>() -> Treap<I> {
+    Treap::new()
 }
 
-fn take<I>(ts: &mut [Treap<I>], i: usize) -> Treap<I> {
+fn take<I: HItem>(ts: &mut [Treap<I>], i: usize) -> Treap<I> {
     std::mem::replace(&mut ts[i], empty())
 }
 
@@ -112,8 +137,12 @@ fn step<I: HItem>(ts: &mut Vec<Treap<I>>, t: &[&str]) -> Option<(String, String)
             same("-".into())
         }
         ["item", v, p] => {
-            let node = with_prio::<I>(v.parse().ok()?, p)?;
-            ts.push(Treap { root: Some(node) });
+            let v: i64 = v.parse().ok()?;
+            let mut tr = Treap::from_item(I::mk(v));
+            if *p != "*" {
+                tr.root.as_mut().unwrap().priority = p.parse::<u32>().ok()?;
+            }
+            ts.push(tr);
             same("-".into())
         }
         ["merge", i, j] => {
@@ -239,7 +268,9 @@ fn run_hist<I: HItem>(focus: &str, stream: &str, ops: &[&str]) -> String {
                             });
                     }
                     let tok = if ok { "ok" } else { "BAD" };
-                    raw.push(tok.into());
+                    // raw additionally exposes whether ties are broken the way the model breaks them
+                    let canon = ts.iter().all(|t| heap_r_ok(&t.root));
+                    raw.push(if ok && !canon { "ok~tie-rule".into() } else { tok.into() });
                     view.push(tok.into());
                 } else {
                     raw.push(r);
@@ -249,25 +280,23 @@ fn run_hist<I: HItem>(focus: &str, stream: &str, ops: &[&str]) -> String {
         }
     }
     if c16 && stream == "ctl" {
-        let shapes: Vec<String> = ts
-            .iter()
-            .map(|t| {
-                let mut ps = Vec::new();
-                prios_inorder(&t.root, &mut ps);
-                let mut sorted = ps.clone();
-                sorted.sort_unstable();
-                sorted.dedup();
-                if sorted.len() == ps.len() {
-                    let mut s = String::from("shape:");
-                    shape(&t.root, &mut s);
-                    s
-                } else {
-                    "ties".to_string()
-                }
-            })
-            .collect();
-        let s = format!("{} / {}", raw.join(" "), shapes.join(" "));
-        return out1(&s);
+        let (mut sr, mut sv): (Vec<String>, Vec<String>) = (Vec::new(), Vec::new());
+        for t in ts.iter() {
+            let mut ps = Vec::new();
+            prios_inorder(&t.root, &mut ps);
+            let mut sorted = ps.clone();
+            sorted.sort_unstable();
+            sorted.dedup();
+            let mut s = String::from("shape:");
+            shape(&t.root, &mut s);
+            // view: the shape is part of the property only when priorities are pairwise distinct
+            sv.push(if sorted.len() == ps.len() { s.clone() } else { "ties".to_string() });
+            sr.push(s);
+        }
+        return out2(
+            &format!("{} / {}", raw.join(" "), sr.join(" ")),
+            &format!("{} / {}", view.join(" "), sv.join(" ")),
+        );
     }
     out2(&raw.join(" "), &view.join(" "))
 }
@@ -314,6 +343,64 @@ fn big_op(t: &mut Treap<SumIt>, n: &mut usize, ctr: &mut i64, tk: &[&str]) -> Re
                 early(t, *n, it).map_err(Some)?;
             }
         }
+        ("singles", 2) | ("fromitem", 2) => {
+            // the sequence is assembled from one-element treaps: many `Treap` objects are created
+            for it in 1..=c {
+                *ctr += 1;
+                let single = if tk[0] == "singles" {
+                    let mut s: Treap<SumIt> = Treap::new();
+                    s.insert_at(0, SumIt::mk(*ctr % 1000));
+                    s
+                } else {
+                    Treap::from_item(SumIt::mk(*ctr % 1000))
+                };
+                *t = Treap::merge(std::mem::replace(t, empty()), single);
+                *n += 1;
+                early(t, *n, it).map_err(Some)?;
+            }
+        }
+        ("scratch", 2) => {
+            // ordinary appends, but between two of them the treap is split, merged through an empty
+            // scratch treap and merged back
+            for it in 1..=c {
+                *ctr += 1;
+                t.insert_at(*n, SumIt::mk(*ctr % 1000));
+                *n += 1;
+                let (l, r) = std::mem::replace(t, empty()).split_at(*n / 2);
+                let scratch: Treap<SumIt> = Treap::new();
+                *t = Treap::merge(Treap::merge(l, scratch), r);
+                early(t, *n, it).map_err(Some)?;
+            }
+        }
+        ("burn", 2) => {
+            // move the thread's priority stream forward: the case line says where the stream starts
+            for _ in 0..c {
+                let _ = TreapNode::new(SumIt::mk(0));
+            }
+        }
+        ("pieces", 3) => {
+            // cut into `c` pieces at random positions, merge the split results back in order
+            let mut parts: Vec<Treap<SumIt>> = Vec::new();
+            let mut rest = std::mem::replace(t, empty());
+            let mut remaining = *n;
+            for _ in 1..c {
+                if remaining == 0 {
+                    break;
+                }
+                let k = rng.below(remaining as u64 + 1) as usize;
+                let (l, r) = rest.split_at(k);
+                parts.push(l);
+                rest = r;
+                remaining -= k;
+            }
+            parts.push(rest);
+            let mut acc: Treap<SumIt> = Treap::new();
+            for (it, part) in parts.into_iter().enumerate() {
+                acc = Treap::merge(acc, part);
+                early(&acc, acc.size().max(1), it + 1).map_err(Some)?;
+            }
+            *t = acc;
+        }
         ("rot", 3) => {
             for it in 1..=c {
                 let k = rng.below(*n as u64 + 1) as usize;
@@ -350,7 +437,32 @@ fn big_check(t: &Treap<SumIt>, n: usize) -> Result<usize, String> {
     if (h as f64) > height_bound(n) {
         return Err(format!("BAD(height={}>{:.1})", h, height_bound(n)));
     }
+    // measured as well (testing, not proof): the generator must not repeat itself — at least
+    // 99.9 % of the priorities of a big tree are distinct (32-bit birthday repeats are ~0.01 % at 10^6)
+    if n >= 1000 {
+        let d = distinct_priorities(&t.root);
+        if (d as f64) < 0.999 * n as f64 {
+            return Err(format!("BAD(distinct-priorities={}of{})", d, n));
+        }
+    }
     Ok(h)
+}
+
+fn distinct_priorities<I>(root: &Link<I>) -> usize {
+    let mut ps: Vec<u32> = Vec::new();
+    let mut st: Vec<&TreapNode<I>> = Vec::new();
+    if let Some(r) = root.as_deref() {
+        st.push(r);
+    }
+    while let Some(n) = st.pop() {
+        ps.push(n.priority);
+        for c in [n.left.as_deref(), n.right.as_deref()].into_iter().flatten() {
+            st.push(c);
+        }
+    }
+    ps.sort_unstable();
+    ps.dedup();
+    ps.len()
 }
 
 /// `big` stream of C16: macro operations on one treap with rlib's own priorities.
@@ -380,28 +492,40 @@ fn run_big(ops: &[&str]) -> String {
 /// `e_treap measure n…`: one JSON row per (pattern, n) with the measured height (evidence only).
 fn measure(sizes: &[usize]) {
     for &n in sizes {
-        for pat in ["append", "front", "alt", "mid", "rand"] {
-            let mut t: Treap<SumIt> = Treap::new();
-            let (mut len, mut ctr) = (0usize, 0i64);
-            let ns = n.to_string();
-            let tk: Vec<&str> = if pat == "rand" { vec![pat, &ns, "1"] } else { vec![pat, &ns] };
-            let r = big_op(&mut t, &mut len, &mut ctr, &tk);
-            let (h, _) = height_count(&t.root);
-            let ok = r.is_ok() && big_check(&t, len).is_ok();
-            println!(
-                "{{\"pattern\":\"{}\",\"n\":{},\"height\":{},\"bound\":{:.1},\"heap_ok\":{},\"ok\":{}}}",
-                pat,
-                len,
-                h,
-                height_bound(len),
-                heap_ok(&t.root),
-                ok
-            );
+        for pat0 in ["append", "front", "alt", "mid", "rand", "singles", "fromitem", "scratch"] {
+            // a fresh thread per row: every measurement starts at the beginning of the priority stream
+            let row = std::thread::Builder::new()
+                .stack_size(2 << 30)
+                .spawn(move || {
+                    let pat = pat0;
+                    let mut t: Treap<SumIt> = Treap::new();
+                    let (mut len, mut ctr) = (0usize, 0i64);
+                    let ns = n.to_string();
+                    let tk: Vec<&str> = if pat == "rand" { vec![pat, &ns, "1"] } else { vec![pat, &ns] };
+                    let r = big_op(&mut t, &mut len, &mut ctr, &tk);
+                    let (h, _) = height_count(&t.root);
+                    let ok = r.is_ok() && big_check(&t, len).is_ok();
+                    format!(
+                        "{{\"pattern\":\"{}\",\"n\":{},\"height\":{},\"bound\":{:.1},\"heap_ok\":{},\"canonical_shape\":{},\"distinct_priorities\":{},\"ok\":{}}}",
+                        pat,
+                        len,
+                        h,
+                        height_bound(len),
+                        heap_ok(&t.root),
+                        heap_r_ok(&t.root),
+                        distinct_priorities(&t.root),
+                        ok
+                    )
+                })
+                .unwrap()
+                .join()
+                .unwrap_or_else(|_| "{\"ok\":false,\"pattern\":\"crashed\",\"n\":0}".to_string());
+            println!("{}", row);
         }
     }
 }
 
-fn run_case(line: &str) -> String {
+fn run_case_here(line: &str) -> String {
     let parts: Vec<&str> = line.split(';').map(|p| p.trim()).collect();
     let hdr: Vec<&str> = parts[0].split_whitespace().collect();
     if hdr.len() < 3 {
@@ -423,6 +547,26 @@ fn run_case(line: &str) -> String {
     match r {
         Ok(s) => s,
         Err(e) => out1(&e),
+    }
+}
+
+/// Cases that use the priorities rlib draws (`own`, `big`) run on a fresh thread each: the
+/// generator is thread-local, so every such case starts at the beginning of the stream and its
+/// result depends on the case line only (it replays in a fresh process). `big` cases move the
+/// stream forward explicitly with `burn`.
+fn run_case(line: &str) -> String {
+    let stream = line.split(';').next().unwrap_or("").split_whitespace().nth(2).unwrap_or("");
+    if stream == "ctl" {
+        return run_case_here(line);
+    }
+    let owned = line.to_string();
+    let h = std::thread::Builder::new()
+        .stack_size(2 << 30)
+        .spawn(move || run_case_here(&owned))
+        .unwrap();
+    match h.join() {
+        Ok(s) => s,
+        Err(_) => out1("panic:other:thread"),
     }
 }
 
